@@ -348,6 +348,10 @@ def _ivals_base(v, facts, depth):
         c = sum(x for x in a if isinstance(x, int))
         t = [x for x in a if not isinstance(x, int)][0]
         return _norm([(None if lo is None else lo + c, None if hi is None else hi + c) for lo, hi in ivals(t, facts, depth + 1)])
+    if o == "add" and any(isinstance(x, int) for x in a) and sum(1 for x in a if not isinstance(x, int)) >= 2:
+        c = sum(x for x in a if isinstance(x, int))
+        rest = tm.add([x for x in a if not isinstance(x, int)])
+        return _norm([(None if lo is None else lo + c, None if hi is None else hi + c) for lo, hi in ivals(rest, facts, depth + 1)])
     if o == "ite":
         c = a[0]
         return _norm(ivals(tm_unfz(a[1]), list(facts) + [c], depth + 1) + ivals(tm_unfz(a[2]), list(facts) + [tm.lnot(c)], depth + 1))
